@@ -4,6 +4,9 @@ import (
 	"bytes"
 	"errors"
 	"io"
+	"reflect"
+	"sort"
+	"unsafe"
 
 	"github.com/200sc/bebop"
 )
@@ -22,6 +25,7 @@ type schedReader struct {
 	ends    []int
 	cur     int
 	starved bool
+	dataEOF bool // the Read that delivers the last byte of the data returns io.EOF with it (as iotest.DataErrReader does)
 	overask bool
 	reads   int
 	log     func(req, got int)
@@ -61,6 +65,9 @@ func (r *schedReader) Read(p []byte) (int, error) {
 	r.pos += n
 	if r.log != nil {
 		r.log(len(p), n)
+	}
+	if r.dataEOF && r.pos == len(r.data) {
+		return n, io.EOF
 	}
 	return n, nil
 }
@@ -151,7 +158,9 @@ func opStream(pi *pkgInfo, c *Cmd) {
 	scheds := append([][]int{nil}, c.Scheds...)
 	for _, st := range streams {
 		for si, pat := range scheds {
-			for _, starved := range []bool{false, true} {
+			for mode := 0; mode < 3; mode++ {
+				starved := mode == 1
+				dataEOF := mode == 2
 				// the real-encoder stream is read greedily and starved under a third of the patterns
 				if st.kind == "enc" && si%3 != c.Cid%3 {
 					continue
@@ -161,12 +170,19 @@ func opStream(pi *pkgInfo, c *Cmd) {
 					style = "starved"
 				}
 				data := st.data
-				if !starved {
+				if mode == 0 {
 					data = append(append([]byte{}, st.data...), trailer...)
 				}
-				r := &schedReader{data: data, pattern: pat, ends: st.ends, starved: starved}
+				if dataEOF {
+					// the stream ends with the last record and its last bytes arrive together with io.EOF
+					style = "last bytes with io.EOF"
+					if st.kind != "ref" {
+						continue
+					}
+				}
+				r := &schedReader{data: data, pattern: pat, ends: st.ends, starved: starved, dataEOF: dataEOF}
 				// read-level trace (validated against StreamAbs) for the unfragmented run and one pattern
-				traced := st.kind == "ref" && (si == 0 || si == 1+c.Cid%len(scheds[1:]))
+				traced := !dataEOF && st.kind == "ref" && (si == 0 || si == 1+c.Cid%len(scheds[1:]))
 				if traced {
 					emit(&Event{Ev: "sbegin", Cid: c.Cid, M: m, Res: "nil", Ends: st.ends, Style: style, Sched: ip(si)})
 					logged := 0
@@ -213,6 +229,126 @@ func opStream(pi *pkgInfo, c *Cmd) {
 					if e.Res != "nil" {
 						break
 					}
+				}
+			}
+		}
+	}
+	// payloads beyond buffer sizes, for the first value of each package's schema only
+	if c.Big {
+		opBigStream(pi, c, m)
+	}
+}
+
+// stretch replaces the first string and the first byte slice reachable in v (through pointers, struct fields,
+// slices of records) by n patterned bytes; it reports whether it found one.
+func stretch(v reflect.Value, n int, depth int, done *[2]bool) {
+	if depth > 4 {
+		return
+	}
+	switch v.Kind() {
+	case reflect.Ptr:
+		if !v.IsNil() {
+			stretch(v.Elem(), n, depth+1, done)
+		}
+	case reflect.Struct:
+		for i := 0; i < v.NumField(); i++ {
+			f := v.Field(i)
+			if !f.CanSet() {
+				f = reflect.NewAt(f.Type(), unsafe.Pointer(f.UnsafeAddr())).Elem()
+			}
+			stretch(f, n, depth+1, done)
+		}
+	case reflect.String:
+		if !done[0] && v.Type().Kind() == reflect.String {
+			b := make([]byte, n)
+			for i := range b {
+				b[i] = byte(33 + i%89)
+			}
+			v.SetString(string(b))
+			done[0] = true
+		}
+	case reflect.Slice:
+		if v.Type().Elem().Kind() == reflect.Uint8 && v.Type().Elem() == reflect.TypeOf(byte(0)) {
+			if !done[1] {
+				b := make([]byte, n)
+				for i := range b {
+					b[i] = byte(i % 251)
+				}
+				v.Set(reflect.ValueOf(b).Convert(v.Type()))
+				done[1] = true
+			}
+			return
+		}
+		if v.Len() > 0 {
+			stretch(v.Index(0), n, depth+1, done)
+		}
+	}
+}
+
+func sortedBytes(b []byte) []byte {
+	out := append([]byte{}, b...)
+	sort.Slice(out, func(i, j int) bool { return out[i] < out[j] })
+	return out
+}
+
+// opBigStream: payloads longer than any buffer a decoder is likely to use. The specification's value is stretched
+// in place (first string, first byte array), encoded by the real encoder (checked against Size()), written twice
+// to a stream and read back with DecodeBebop through readers that hand out as much as is asked for, 1000 bytes at
+// a time, or everything at once with io.EOF.
+func opBigStream(pi *pkgInfo, c *Cmd, m0 int) {
+	m := m0
+	for _, n := range []int{4097, 5000, 8193, 70001} {
+		rec := buildRecord(pi, c.Root, c.V, false)
+		var done [2]bool
+		stretch(reflect.ValueOf(rec), n, 0, &done)
+		if !done[0] && !done[1] {
+			return // nothing to stretch in this shape
+		}
+		var enc []byte
+		res, _, _, _ := call(4*n+1024, func() error { enc = rec.MarshalBebop(); return nil })
+		if res != "nil" || len(enc) != rec.Size() {
+			emit(&Event{Ev: "bigrec", Cid: c.Cid, M: m, Res: res, API: "MarshalBebop", K: ip(n), Style: "encode", Rec: ip(0), N: ip(rec.Size()), Consumed: ip(len(enc)), TailOK: bp(false)})
+			m++
+			continue
+		}
+		data := append(append(append([]byte{}, enc...), enc...), trailer...)
+		for _, style := range []string{"as much as asked", "1000 bytes per Read", "bytes.Reader", "last bytes with io.EOF"} {
+			var r io.Reader
+			var pos func() int
+			switch style {
+			case "bytes.Reader":
+				br := bytes.NewReader(data)
+				r, pos = br, func() int { return len(data) - br.Len() }
+			case "1000 bytes per Read":
+				sr := &schedReader{data: data, pattern: []int{1000}}
+				r, pos = sr, func() int { return sr.pos }
+			case "last bytes with io.EOF":
+				sr := &schedReader{data: data[:2*len(enc)], dataEOF: true}
+				r, pos = sr, func() int { return sr.pos }
+			default:
+				sr := &schedReader{data: data}
+				r, pos = sr, func() int { return sr.pos }
+			}
+			start := 0
+			for i := 0; i < 2; i++ {
+				begin(c.Cid, m, &Event{Ev: "bigrec", API: "DecodeBebop", K: ip(n), Style: style, Rec: ip(i)})
+				e := &Event{Ev: "bigrec", Cid: c.Cid, M: m, API: "DecodeBebop", K: ip(n), Style: style, Rec: ip(i), N: ip(len(enc))}
+				got := newRecord(pi.Pid, c.Root)
+				e.Res, e.Msg, e.Big, e.Alloc = call(len(data), func() error { return got.DecodeBebop(r) })
+				e.Consumed = ip(pos() - start)
+				same := false
+				if e.Res == "nil" {
+					var back []byte
+					r2, _, _, _ := call(4*n+1024, func() error { back = got.MarshalBebop(); return nil })
+					// equal values encode to the same bytes up to the order of map entries
+					same = r2 == "nil" && bytes.Equal(sortedBytes(back), sortedBytes(enc))
+				}
+				e.TailOK = bp(same)
+				emit(e)
+				m++
+				start = pos()
+				if e.Res != "nil" {
+					break
 				}
 			}
 		}
